@@ -350,6 +350,22 @@ func (t *Timer) Stop() bool {
 	return was
 }
 
+// Reset re-arms the timer like (*time.Timer).Reset (code under test may reuse one timer).
+func (t *Timer) Reset(d time.Duration) bool {
+	if t.rt != nil {
+		return t.rt.Reset(d)
+	}
+	was := !t.Stopped && !t.Fired
+	u := int64(0)
+	if d > 0 {
+		u = int64((d + Unit - 1) / Unit)
+	}
+	t.Deadline = t.ctl.VNow() + u
+	t.Stopped = false
+	t.Fired = false
+	return was
+}
+
 // Fire delivers the expiry of a virtual timer (harness only; the deadline must have passed).
 func (t *Timer) Fire() {
 	if t.Fired || t.Stopped {
